@@ -34,6 +34,7 @@ func run(r *vk.Run) {
 		"whether a reset mask applies together with an empty non-nil update mask is left open")
 
 	unis := universes()
+	sequences(r)
 	exhaustive(r, unis[0])
 	for _, u := range unis {
 		small(r, u)
